@@ -464,7 +464,111 @@ def fan_targets(index: RepoIndex, rep, rule: str) -> None:
                   f'the area get no ray', f'fan targets {axis}')
 
 
+def full_circle(index: RepoIndex, rep, rule: str) -> None:
+    """the evenly spaced fan of compute_rays goes all the way round: its N directions are
+    k * (2*pi / N) for k = 0 .. N-1.  The direction expression is read from the comprehension
+    that feeds `radians=` and evaluated as a constant expression in math.pi at k = 0, 1, N/2
+    and N-1 (constant folding of a literal formula, not an execution of the repository)."""
+    import math
+    from ..view import view
+    f = index.func(RT, 'compute_rays')
+    node, w, _ = view(index, f)
+    calls = [e for e in w.events if e.kind == 'call' and src(e.node.func) == 'compute_ray']
+    site = f'{RT}:compute_rays:{f.node.lineno}'
+    if len(calls) != 1:
+        rep.undecided(rule, site, f'{len(calls)} compute_ray call sites')
+        return
+    kw = {k.arg: k.value for k in calls[0].node.keywords}
+    rad = kw.get('radians')
+    if not isinstance(rad, ast.Name) or not calls[0].loops:
+        rep.undecided(rule, site, 'direction is not a loop variable')
+        return
+    it = None
+    for t, i in calls[0].loops:
+        if src(t) == rad.id:
+            it = w.expand(i)
+    if isinstance(it, ast.Call) and src(it.func) in ('list', 'tuple', 'iter') and \
+            len(it.args) == 1:
+        it = it.args[0]
+    if isinstance(it, ast.Call) and isinstance(it.func, ast.Name) and not it.keywords:
+        # a helper that makes the directions: read its single returned expression with the
+        # literal arguments of this call in place of its parameters
+        import copy
+        from ..index import Func as _Func
+        from ..inline import _SubstNames
+        h = index.resolve_name(f.module, it.func.id)
+        if isinstance(h, _Func) and len(h.node.args.args) == len(it.args):
+            hw = walk_function(h.node)
+            hr = [e for e in hw.events if e.kind == 'return' and e.value is not None]
+            if len(hr) == 1:
+                sub = {a.arg: v for a, v in zip(h.node.args.args, it.args)}
+                it = _SubstNames(sub).visit(copy.deepcopy(hw.expand(hr[0].value)))
+    if not (isinstance(it, (ast.GeneratorExp, ast.ListComp)) and len(it.generators) == 1
+            and not it.generators[0].ifs and isinstance(it.generators[0].target, ast.Name)):
+        rep.undecided(rule, site, f'directions `{src(it)[:80] if it is not None else "?"}` are '
+                      f'not a comprehension over range(N)')
+        return
+    g0 = it.generators[0]
+    rng_ = w.expand(g0.iter)
+    if not (isinstance(rng_, ast.Call) and src(rng_.func) == 'range' and len(rng_.args) == 1
+            and isinstance(rng_.args[0], ast.Constant) and isinstance(rng_.args[0].value, int)
+            and rng_.args[0].value > 0):
+        rep.undecided(rule, site, f'directions iterate over `{src(rng_)[:60]}`')
+        return
+    N, var = rng_.args[0].value, g0.target.id
+    elt = w.expand(it.elt, stop=[var])
+
+    class Unknown(Exception):
+        pass
+
+    def ev(e, k):
+        if isinstance(e, ast.Constant) and isinstance(e.value, (int, float)) and \
+                not isinstance(e.value, bool):
+            return e.value
+        if isinstance(e, ast.Name) and e.id == var:
+            return k
+        if src(e) in ('math.pi', 'np.pi', 'numpy.pi', 'pi'):
+            return math.pi
+        if src(e) in ('math.tau', 'tau'):
+            return math.tau
+        if isinstance(e, ast.BinOp):
+            a, b = ev(e.left, k), ev(e.right, k)
+            if isinstance(e.op, ast.Add):
+                return a + b
+            if isinstance(e.op, ast.Sub):
+                return a - b
+            if isinstance(e.op, ast.Mult):
+                return a * b
+            if isinstance(e.op, ast.Div) and b != 0:
+                return a / b
+        if isinstance(e, ast.UnaryOp) and isinstance(e.op, ast.USub):
+            return -ev(e.operand, k)
+        if isinstance(e, ast.Call) and src(e.func) in ('math.radians', 'np.radians', 'np.deg2rad',
+                                                       'numpy.radians', 'numpy.deg2rad') \
+                and len(e.args) == 1 and not e.keywords:
+            return math.radians(ev(e.args[0], k))
+        if isinstance(e, ast.Call) and src(e.func) == 'float' and len(e.args) == 1:
+            return float(ev(e.args[0], k))
+        raise Unknown(src(e)[:60])
+    try:
+        pts = sorted({0, 1, N // 2, N - 1})
+        got = [ev(elt, k) for k in pts]
+    except Unknown as u:
+        rep.undecided(rule, site, f'direction `{src(elt)[:80]}` is not a constant formula ({u})')
+        return
+    want = [k * 2 * math.pi / N for k in pts]
+    ok = all(abs(a - b) <= 1e-9 * max(1.0, abs(b)) for a, b in zip(got, want))
+    rep.check(ok, rule, RT, 'compute_rays', f.node.lineno, f'{src(elt)[:80]} for {var} in range({N})',
+              f'the {N} directions of compute_rays are `{src(elt)[:60]}`, which at k = {pts} gives '
+              f'{[round(x, 4) for x in got]} rad, not k*2*pi/{N} = {[round(x, 4) for x in want]}: '
+              f'the fan does not go all the way round, so whole sides of the area are never swept',
+              f'{N} directions, evenly round the circle')
+
+
 def run(index: RepoIndex, rep) -> None:
+    rep.rule('C19.R8', 'the evenly spaced fan (compute_rays) spans the full circle: N directions '
+             'k*2*pi/N', floor=1)
+    full_circle(index, rep, 'C19.R8')
     rep.rule('C19.R6', 'the fan of compute_rays_fancy is aimed at the cell corners of the area '
              'relative to the origin (necessary for coverage)', floor=1)
     fan_targets(index, rep, 'C19.R6')
